@@ -197,6 +197,11 @@ fn parse_path(
                     .to_err_vec()?;
                 let lhs_ty = lhs_ty.assume_type_of_self(&user_data);
 
+                // The members of a module are never rebound from outside, whatever name
+                // the module is reached through (`m = lib` followed by `m.LIMIT = 9`).
+                let is_const =
+                    is_const || matches!(lhs_ty.disregard_distractors(false), TypeLayout::Module(..));
+
                 let (dot_chain, expected_type) = Parser::dot_chain(
                     Node::new_with_user_data(op, Rc::clone(&user_data)),
                     Cow::Borrowed(&lhs_ty),
